@@ -25,6 +25,11 @@ are not inserted yet: the contour a pen is drawing (`cur`), and objects instanti
 fields are always empty.
 
 Coordinates, names, colours, transformations are not modelled: no identifier decision reads them.
+Index arguments of `Op` are raw numbers reduced modulo the current length (`pick`), exactly as the
+harness does, so that generated histories stay meaningful; the theorems quantify over all of them.
+Domain restrictions shared with the harness (it does not call defcon there): `Contour.reverse`
+only on contours fontTools can draw before and after (`drawOk`), no re-insertion of a component
+that would make the component graph cyclic, files for reload/reopen with unique identifiers.
 Core Lean only.
 -/
 namespace DefconModel
